@@ -177,8 +177,8 @@ fn lat_decode_in(parity: u32, klo: i32, khi: i32) {
     let got = cpr_location(&[yz0, yz1], &[40000, 90000], parity, 1);
     let truth = u as f64 * (360.0 / KLAT as f64);
     let bin = 360.0 / 59.0 / 131072.0;
-    vcover!(u < 0, "southern hemisphere");
-    vcover!(u > 0, "northern hemisphere");
+    vcover!(yz0 == 0 || yz1 == 0, "a latitude field of 0");
+    vcover!(u != 0 && yz0 > 70000, "upper half of a zone");
     match got {
         Some((lat, _)) => {
             let d = lat - truth;
@@ -200,25 +200,7 @@ fn lat_decode_in(parity: u32, klo: i32, khi: i32) {
     }
 }
 
-// @harness props=C08 tier=thorough cap=14400 needs=kfmod
-// latitude recovery for every latitude in 87S..87N (2 cm resolution), even frame newer; zone count stubbed constant
-#[cfg_attr(kani, kani::proof)]
-#[cfg_attr(kani, kani::unwind(60))]
-#[cfg_attr(kani, kani::stub(crate::decoder::adsb::position::nl, stub_nl))]
-#[cfg_attr(verif_replay, test)]
-fn c08_lat_decode_even_newer() {
-    lat_decode(0);
-}
 
-// @harness props=C08 tier=thorough cap=14400 needs=kfmod
-// latitude recovery for every latitude in 87S..87N, odd frame newer (inexact 360/59 products)
-#[cfg_attr(kani, kani::proof)]
-#[cfg_attr(kani, kani::unwind(60))]
-#[cfg_attr(kani, kani::stub(crate::decoder::adsb::position::nl, stub_nl))]
-#[cfg_attr(verif_replay, test)]
-fn c08_lat_decode_odd_newer() {
-    lat_decode(1);
-}
 
 // @harness props=C08 tier=quick cap=1800 needs=kfmod
 // zone rule: for all 2^68 CPR fields, the pair is rejected iff NL of the two recovered latitudes differ
@@ -261,7 +243,4 @@ macro_rules! lat_cell {
         }
     };
 }
-// @harness name=exp_lat_cell_k8_even props=EXP tier=quick cap=1800 needs=kfmod
-lat_cell!(exp_lat_cell_k8_even, 8, 0);
-// @harness name=exp_lat_cell_km3_odd props=EXP tier=quick cap=1800 needs=kfmod
-lat_cell!(exp_lat_cell_km3_odd, -3, 1);
+include!("cpr_lat_gen.rs");
